@@ -264,7 +264,29 @@ PrimVecs ==
   \o Cross3(<< "ReadInteger", "NewInteger" >>, << 1, 2, 4, 8 >>, << 0, 1, 7, 8, 9, 12 >>, LAMBDA fn, sz, n : [ops |-> << [op |-> "ReadInt", fn |-> fn, size |-> sz, in |-> Fill(n, sz)] >>])
   \o SeqMap(LAMBDA sz : SessionSweep(<< "ReadInteger", "NewInteger" >>, Fill(sz, sz), [size |-> sz], "integer", 0), << 1, 2, 3, 4, 5, 6, 7, 8 >>)
 
-Vecs == CASE Fam = "prims" -> PrimVecs [] Fam = "lease" -> LeaseVecs \o SessionVecs [] Fam = "sig" -> SigVecs [] Fam = "offsig" -> OffVecs
+(******************************* serialisations kept by the caller ***********)
+\* two different values of every structure are parsed and serialised one after the other; the serialisations are KEPT (and later
+\* appended to / overwritten by the caller) while the following ones are produced (Chain op, kind "ser")
+SerItem(fn, w, extra) == [fn |-> fn, in |-> w] @@ extra
+SerChainItems ==
+  << SerItem("ReadRouterInfo", RInfoEnc("key", 7, 4, D8[3], 1, 0, OptSets[4], 3), << >>), SerItem("ReadRouterInfo", RInfoEnc("key", 7, 4, D8[2], 2, 0, OptSets[3], 5), << >>),
+     SerItem("ReadLeaseSet", LSEnc("key", 7, 4, 2, 2, 3), << >>), SerItem("ReadLeaseSet", LSEnc("key", 7, 4, 1, 1, 7), << >>),
+     SerItem("ReadLeaseSet2", LS2Default(1), << >>), SerItem("ReadLeaseSet2", LS2Default(9), << >>),
+     SerItem("ReadMetaLeaseSet", MetaEnc("key", 7, 4, 0, 7, OptSets[1], 2, 2, 3, OptSets[1], 1), << >>), SerItem("ReadMetaLeaseSet", MetaEnc("key", 7, 4, 0, 7, OptSets[3], 1, 1, 3, OptSets[1], 5), << >>),
+     SerItem("ReadEncryptedLeaseSet", ELSEnc(11, T4[6], << 2, 88 >>, 0, 7, 100, 100, 2), << >>), SerItem("ReadEncryptedLeaseSet", ELSEnc(11, T4[6], << 2, 88 >>, 0, 7, 80, 80, 6), << >>),
+     SerItem("ReadDestination", EncIdentity("key", 7, 4, 3), << >>), SerItem("ReadDestination", EncIdentity("key", 7, 4, 8), << >>),
+     SerItem("ReadRouterIdentity", EncIdentity("key", 7, 4, 4), << >>), SerItem("ReadKeysAndCert", EncIdentity("null", 0, 0, 5), << >>), SerItem("ReadKeysAndCert", EncIdentity("key", 7, 0, 6), << >>),
+     SerItem("ReadCertificate", << 5, 0, 4, 0, 7, 0, 4 >>, << >>), SerItem("ReadCertificate", << 1, 0, 3, 9, 8, 7 >>, << >>), SerItem("NewKeyCertificate", << 5, 0, 4, 0, 11, 0, 4 >>, << >>),
+     SerItem("ReadRouterAddress", AddrEnc(3), << >>), SerItem("ReadRouterAddress", AddrEnc(8), << >>),
+     SerItem("ReadMapping", SerMapping(OptSets[4]), << >>), SerItem("ReadMapping", SerMapping(OptSets[7]), << >>),
+     SerItem("ReadLease", EncLease(5, T4[2], D8[3]), << >>), SerItem("ReadLease", EncLease(6, T4[3], D8[2]), << >>),
+     SerItem("ReadLease2", EncLease2(6, T4[2], T4[3]), << >>), SerItem("ReadLease2", EncLease2(7, T4[4], T4[2]), << >>),
+     SerItem("ReadOfflineSignature", EncOffline(T4[6], 7, 7, 3), [typ |-> 7]), SerItem("ReadOfflineSignature", EncOffline(T4[3], 11, 7, 4), [typ |-> 7]),
+     SerItem("ReadSignature", Fill(64, 1), [typ |-> 7]), SerItem("ReadSignature", Fill(64, 2), [typ |-> 7]),
+     SerItem("ReadI2PString", << 3, 97, 98, 99 >>, << >>), SerItem("ReadI2PString", << 2, 120, 121 >>, << >>), SerItem("ReadDate", D8[3], << >>), SerItem("ReadDate", D8[2], << >>) >>
+SerChainVecs == << [ops |-> << [op |-> "Chain", fn |-> "Bytes", kind |-> "ser", items |-> SerChainItems, cls |-> "structures"] >>] >>
+
+Vecs == CASE Fam = "serchain" -> SerChainVecs [] Fam = "prims" -> PrimVecs [] Fam = "lease" -> LeaseVecs \o SessionVecs [] Fam = "sig" -> SigVecs [] Fam = "offsig" -> OffVecs
           [] Fam = "raddr" -> RAddrVecs [] Fam = "rinfo" -> RInfoVecs [] Fam = "ls" -> LSVecs [] Fam = "ls2" -> LS2Vecs
           [] Fam = "meta" -> MetaVecs [] Fam = "els" -> ELSVecs [] Fam = "ricaps" -> RICapsVecs
           [] OTHER -> LeaseVecs \o SessionVecs \o SigVecs \o OffVecs \o RAddrVecs \o RInfoVecs \o LSVecs \o LS2Vecs \o MetaVecs \o ELSVecs
